@@ -274,6 +274,15 @@ CATALOG = [
     ("R", lambda r: ["bootstrap"]),
     ("R", lambda r: ["sample", "-k", str(r.randint(1, 3)), "-g", "a"]),
     ("R", lambda r: ["put", r.choice(["$r = urandint(1, 1000)", "$r = urand32()", "$r = urandrange(0, 10)", "$e = urandelement([1,2,3,4,5])"])]),
+    # every random function over ordinary, degenerate and very wide ranges: all of them must follow --seed
+    ("R", lambda r: ["put", r.choice(["$r = urandint(0, 2**60)", "$r = urandint(-2**62, 2**62)", "$r = urandint(-5, 5)", "$r = urandint(10, 1)", "$r = urandint(0, 9223372036854775807)",
+                                      "$r = urandint(-9223372036854775807, 9223372036854775807)", "$r = urandint(0, 2**53 + 1)", "$r = urandint(7, 7)",
+                                      "$r = urandrange(-1e300, 1e300)", "$r = urandrange(5, 5)", "$r = urandrange(-1, 1) * 1000000", "$r = urand() * 1000000",
+                                      "$r = urand32() . \":\" . urand()", "$e = urandelement([$a, $b, \"z\"])", "$r = urandint($i, $i + 2**55)", "$r = fmtnum(urand(), \"%.12f\")",
+                                      "$r = int(urand() * 2**62)", "$r = urandint(1, 6) + urandint(1, 6)"])]),
+    ("R", lambda r: ["bootstrap", "-n", str(r.choice([1, 3, 20]))]),
+    ("R", lambda r: ["sample", "-k", str(r.randint(1, 4))]),
+    ("R", lambda r: ["shuffle"]),
     ("R", lambda r: ["filter", "urand() < 0.5"]),
 ]
 
